@@ -32,14 +32,16 @@ class Mixture(BigSMILESbase):
         self._absolute_mass = None
         self._relative_mass = None
         self._system_mass = None
+        # Only the leading '.' belongs to the notation, a number may start with '.', too.
+        number_text = self._raw_text[1:].strip("|% \t")
         if "%" in self._raw_text:
-            rel_mass = float(self._raw_text.strip(".|%"))
+            rel_mass = float(number_text)
             if rel_mass < 0 or rel_mass > 100:
                 raise RuntimeError(f"Mixture relative mass invalid percent {self._raw_text}.")
             self._relative_mass = float(rel_mass)
         else:
             try:
-                abs_mass = float(self._raw_text.strip(".|"))
+                abs_mass = float(number_text)
             except ValueError:
                 warn(
                     f"Mixture descriptor {self._raw_text} does not specify a valid mixture, the system will not be generable.",
